@@ -65,6 +65,8 @@ func (e *Engine) collectHavoc(nodes []ast.Node, st *State) *havocSet {
 	declaredInside := func(x ast.Expr) bool {
 		for {
 			switch y := ast.Unparen(x).(type) {
+			case *ast.CallExpr:
+				return true // a stream produced by a call inside the loop is fresh in every iteration
 			case *ast.IndexExpr:
 				x = y.X
 				continue
@@ -313,6 +315,11 @@ func (e *Engine) checkHavocComplete(head, out *State, h *havocSet, where string)
 		if h.mem[k] || h.arr[k] {
 			continue
 		}
+		if strings.HasPrefix(k, "nev:") {
+			if _, ok := h.ghosts[k[4:]]; ok {
+				continue
+			}
+		}
 		if strings.HasPrefix(k, "fld:") {
 			covered := false
 			for r := range h.fields {
@@ -521,7 +528,7 @@ func (e *Engine) spawnLoop(x *ast.ForStmt) *ast.GoStmt {
 	for _, s := range x.Body.List {
 		switch y := s.(type) {
 		case *ast.GoStmt:
-			if _, ok := ast.Unparen(y.Call.Fun).(*ast.FuncLit); !ok || g != nil {
+			if g != nil {
 				return nil
 			}
 			g = y
